@@ -193,3 +193,61 @@ package level
 //@   ensures !ok ==> idx == h.bits + 1 && len(h.values) == old(len(h.values)) && len(h.values) == cap(h.values)   [@value]
 //@   ensures hpwf(h)                                                                 [@wf]
 //@   modifies h.values, h.values[0:cap(h.values)], map(h.ids)                        [@frame]
+
+//@ func (*linearPalette).ReadFrom(l; r) (n, err)
+//@   let st = stream(r)
+//@   let p0 = old(Spos(st))
+//@   let k = leb32_run(Sinrow(st), p0)
+//@   let L = int(int32(leb32_val(Sinrow(st), p0, k)))
+//@   requires true
+//@   loop 0: modifies l.values[:], stream(r)
+//@   loop 0: invariant 0 <= i && i <= L && len(l.values) == L && Spos(st) == p0 + n && n >= k && n <= k + 5*i && !Sfail(st)
+//@   ensures err == nil ==> L >= 0 && len(l.values) == L && Spos(st) == p0 + n && n >= k        [@count @consume]
+//@   ensures !Sfail(st) && (k > 5 || L < 0) ==> err != nil                          [@reject]
+//@   ensures Sfail(st) ==> err != nil                                                [@errprop]
+//@   modifies l.values, l.values[0:cap(l.values)], stream(r)                  [@frame]
+
+//@ func (*linearPalette).WriteTo(l; w) (n, err)
+//@   let wk = sink(w)
+//@   let l0 = old(Wlen(wk))
+//@   let hl = leb32_len(uint32(len(l.values)))
+//@   requires len(l.values) < 1<<31
+//@   loop 0: modifies sink(w)
+//@   loop 0: invariant -1 <= rangeindex && rangeindex < len(l.values) || (rangeindex == -1 && len(l.values) == 0)
+//@   loop 0: invariant n >= hl && n <= hl + 5*(rangeindex+1) && Wlen(wk) == l0 + n && !Wfail(wk)
+//@   loop 0: invariant all(q, 0, 5, q < hl ==> Wout(wk, l0+q) == leb32_byte(uint32(len(l.values)), q))
+//@   loop 0: invariant all(k, 0, l0, Wout(wk, k) == old(Wout(wk, k)))
+//@   ensures all(k, 0, l0, Wout(wk, k) == old(Wout(wk, k)))                         [@frame]
+//@   ensures err == nil ==> Wlen(wk) == l0 + n && n >= hl                            [@count]
+//@   ensures err == nil ==> all(q, 0, 5, q < hl ==> Wout(wk, l0+q) == leb32_byte(uint32(len(l.values)), q))   [@value]
+//@   ensures Wfail(wk) ==> err != nil                                                [@errprop]
+//@   modifies sink(w)                                                                [@frame]
+
+//@ func (*hashPalette).ReadFrom(l; r) (n, err)
+//@   let st = stream(r)
+//@   let p0 = old(Spos(st))
+//@   let k = leb32_run(Sinrow(st), p0)
+//@   let L = int(int32(leb32_val(Sinrow(st), p0, k)))
+//@   requires !isnil(l.ids)
+//@   loop 0: modifies l.values[:], stream(r), map(l.ids)
+//@   loop 0: invariant 0 <= i && i <= L && len(l.values) == L && Spos(st) == p0 + n && n >= k && n <= k + 5*i && !Sfail(st)
+//@   ensures err == nil ==> L >= 0 && len(l.values) == L && Spos(st) == p0 + n && n >= k        [@count @consume]
+//@   ensures !Sfail(st) && (k > 5 || L < 0) ==> err != nil                          [@reject]
+//@   ensures Sfail(st) ==> err != nil                                                [@errprop]
+//@   modifies l.values, l.values[0:cap(l.values)], stream(r), map(l.ids)                  [@frame]
+
+//@ func (*hashPalette).WriteTo(l; w) (n, err)
+//@   let wk = sink(w)
+//@   let l0 = old(Wlen(wk))
+//@   let hl = leb32_len(uint32(len(l.values)))
+//@   requires len(l.values) < 1<<31
+//@   loop 0: modifies sink(w)
+//@   loop 0: invariant -1 <= rangeindex && rangeindex < len(l.values) || (rangeindex == -1 && len(l.values) == 0)
+//@   loop 0: invariant n >= hl && n <= hl + 5*(rangeindex+1) && Wlen(wk) == l0 + n && !Wfail(wk)
+//@   loop 0: invariant all(q, 0, 5, q < hl ==> Wout(wk, l0+q) == leb32_byte(uint32(len(l.values)), q))
+//@   loop 0: invariant all(k, 0, l0, Wout(wk, k) == old(Wout(wk, k)))
+//@   ensures all(k, 0, l0, Wout(wk, k) == old(Wout(wk, k)))                         [@frame]
+//@   ensures err == nil ==> Wlen(wk) == l0 + n && n >= hl                            [@count]
+//@   ensures err == nil ==> all(q, 0, 5, q < hl ==> Wout(wk, l0+q) == leb32_byte(uint32(len(l.values)), q))   [@value]
+//@   ensures Wfail(wk) ==> err != nil                                                [@errprop]
+//@   modifies sink(w)                                                                [@frame]
